@@ -387,6 +387,11 @@ def finish(prop, tier, seed, rows, results, fatal, vacuity, extra_assumptions, f
 def replay_file(path):
     with open(path) as f:
         d = json.load(f)
+    if d.get("kind") == "crosshair":
+        from . import xhair
+        ok, what = xhair.replay(d["counterexample"])
+        print(("REPRODUCED " if ok else "NOT REPRODUCED ") + what)
+        return 1 if ok else 2
     rv, events, missing, _ = _run_concrete(d["task"], d["values"])
     print("replay of %s on %s" % (d["monitor"], d["config"]))
     print("events:", events)
